@@ -123,6 +123,27 @@ func Known(id, what string) {
 	mu.Unlock()
 }
 
+// InFlight records the case about to be handed to the code under test, so
+// that a fatal crash of the process (which no recover() can intercept) still
+// leaves a replay behind. Active only when the driver sets VERIF_INFLIGHT.
+func InFlight(test string, payload interface{}) {
+	path := os.Getenv("VERIF_INFLIGHT")
+	if path == "" {
+		return
+	}
+	b, err := json.Marshal(&failure{Property: prop, Test: test, Message: "process died while this case was running", Payload: payload})
+	if err == nil {
+		_ = os.WriteFile(path, b, 0o644)
+	}
+}
+
+// InFlightDone clears the in-flight record.
+func InFlightDone() {
+	if path := os.Getenv("VERIF_INFLIGHT"); path != "" {
+		_ = os.Remove(path)
+	}
+}
+
 // TB is the subset of testing.TB / *rapid.T that Fail needs.
 type TB interface {
 	Fatalf(format string, args ...interface{})
@@ -160,6 +181,7 @@ type shardEvidence struct {
 func Main(m *testing.M, property string) {
 	prop = property
 	code := m.Run()
+	InFlightDone()
 	os.Exit(finish(code))
 }
 
